@@ -770,8 +770,29 @@ class SymArray:
 
 
 # ---------------------------------------------------------------------------- numpy proxy
+builtins_any = any
+
+
 class SxNd(_np.ndarray):
     __array_priority__ = 100
+
+    # numpy's own any()/all() on an object array reduce with Python's `or`/`and`, i.e. they ask every element for its truth value one
+    # after the other (one fork per symbolic element); the result as ONE symbolic condition keeps the caller's `if` mergeable
+    def any(self, axis=None, out=None, keepdims=False, **kw):
+        if axis is None and out is None and not keepdims and self.dtype == object:
+            es = self.view(_np.ndarray).ravel().tolist()
+            if builtins_any(_sym(e) for e in es):
+                r = disj(_t(as_cond(e)) for e in es)
+                return r if r.__class__ is Bit else bool(r)
+        return _np.ndarray.any(self.view(_np.ndarray), axis=axis, out=out, keepdims=keepdims, **kw)
+
+    def all(self, axis=None, out=None, keepdims=False, **kw):
+        if axis is None and out is None and not keepdims and self.dtype == object:
+            es = self.view(_np.ndarray).ravel().tolist()
+            if builtins_any(_sym(e) for e in es):
+                r = conj(_t(as_cond(e)) for e in es)
+                return r if r.__class__ is Bit else bool(r)
+        return _np.ndarray.all(self.view(_np.ndarray), axis=axis, out=out, keepdims=keepdims, **kw)
 
     def __array_ufunc__(self, ufunc, method, *inputs, **kw):
         ins = [i.view(_np.ndarray) if isinstance(i, SxNd) else i for i in inputs]
@@ -1166,6 +1187,8 @@ def reset(seed=0):
     CTX.reset(seed)
     Atom._cache.clear()
     Atom._blast.clear()
+    from sxl import ints as _ints
+    _ints._ATLEAST.clear()
     _sig_rep.clear()
     _tab_cache.clear()
     del GUARDS[:]
